@@ -9,7 +9,7 @@ From FB.Spec Require Import JsonSpec Prog Ref Oracle Faithful.
 From FB.Model Require Import Types Monad CreatedFiles BuildDirs SimpleOps Builder Persist Build Run Frame Core CoreOracle.
 From FB.Proofs Require Import FsLemmas JsonLaws ReplayLaws CleanLaws BuildFileLaws HashMemoInv HashMemoRun CoreLaws1 CoreLaws2 CoreLaws3
      ViewDefs ViewLemmas ViewFrame ViewInit ViewXDefs ViewXError ViewXQuery ViewXMake1 ViewXMake2 ViewXFail ViewXSetup ViewXRun
-     ViewH7 ViewR1 ViewR2 ViewR3 ViewR9 ViewK1 ViewK2 ViewK3 ViewK4 ViewK5 ViewK7 ViewK8 SimA0 SimARun SimA2Base SimA2.
+     ViewH7 ViewR1 ViewR2 ViewR3 ViewR9 ViewK1 ViewK2 ViewK3 ViewK4 ViewK5 ViewK7 ViewK8 SimA0 SimARun SimA2Base SimA2 SimA3.
 Import ListNotations.
 Open Scope list_scope.
 Open Scope m_scope.
@@ -106,35 +106,36 @@ Section Node.
   Hypothesis Hpre : pre_statement.
   Hypothesis Hclaim : claim_statement.
   Hypothesis Hfin : finish_statement.
-  Hypothesis Hlook : lookup_agree_statement.
+  Hypothesis Hbuilt : built_statement.
+  Hypothesis Hlook : lookup_agree_hyp.
   Hypothesis Hhit : hit_agree_hyp.
-  Hypothesis Htmp : forall tg w, TSA tg w.
 
   Theorem bf_node : bf_node_statement.
   Proof.
     intros st p c fname a kw fn T W w s tg pend w1 r o Hconds Hbody HS HC E1 s1 r' o' E2.
-    pose proof HS as [[HP HL] [HI HK]].
+    pose proof HS as [[HP HL] [HI [HK HWb]]].
+    destruct Hbuilt as (Bclaim & Bpre & Blook & Breuse & Bfin & _).
     pose proof (node_HInv _ _ _ _ _ _ _ _ _ HI HK E1) as HI1.
     pose proof (node_old _ _ _ _ _ _ _ _ _ E1) as Hold1.
     pose proof (node_TSA tg _ _ _ _ _ _ _ _ _ HK (c4_tsa _ _ _ _ HC) E1) as HT1.
     assert (HK1: old_keys_ok (w_old w1)) by (rewrite Hold1; exact HK).
     (* the common end: the relation, the in-progress set and the files of the running functions *)
-    assert (Hend: forall T' W' ro oo,
+    assert (Hend: forall T' W' ro,
               Sim4c T' W' w1 s1 -> (forall y, inprog w1 y <-> inprog w y) ->
               (forall y, In y st -> lookup (w_fs w1) y = lookup (w_fs w) y) ->
-              r = ro -> r' = ro -> orec_rel o o' -> oo = tt -> Wincl W W' ->
+              r = ro -> r' = ro -> orec_rel o o' -> Wincl W W' -> Wincl W' (c_built (w_new w1)) ->
               node_post st tg pend W w w1 r o s1 r' o').
-    { intros T' W' ro oo HS1 Hp1 Hf1 Er Er' Ho _ HW. exists T', W'.
-      split; [split; [exact HS1|split; [exact HI1|exact HK1]]|].
+    { intros T' W' ro HS1 Hp1 Hf1 Er Er' Ho HW HWb1. exists T', W'.
+      split; [split; [exact HS1|split; [exact HI1|split; [exact HK1|exact HWb1]]]|].
       split; [apply (ctx4_restore st tg pend w w1 HC Hp1 Hf1 HT1)|].
       split; [exact Hf1|]. split; [congruence|]. split; [exact Ho|]. split; [exact HW|exact Hold1]. }
     rewrite m_build_file_unfold in E1. unfold core_bf_node in E2.
     destruct (sanitize a) as [sa|].
     2:{ inversion E1; inversion E2; subst.
-        apply (Hend T W (inr XType) tt); auto; try (intro; reflexivity); try reflexivity; [exact (conj HP HL)|exact I|apply Wincl_refl]. }
+        apply (Hend T W (inr XType) (conj HP HL)); [intro; reflexivity|intros; reflexivity|reflexivity|reflexivity|exact I|apply Wincl_refl|exact HWb]. }
     destruct (sanitize kw) as [skw|].
     2:{ inversion E1; inversion E2; subst.
-        apply (Hend T W (inr XType) tt); auto; try (intro; reflexivity); try reflexivity; [exact (conj HP HL)|exact I|apply Wincl_refl]. }
+        apply (Hend T W (inr XType) (conj HP HL)); [intro; reflexivity|intros; reflexivity|reflexivity|reflexivity|exact I|apply Wincl_refl|exact HWb]. }
     cbv zeta in E2.
     destruct (bf_setup p c fname sa skw w) as [wS rS] eqn:Es.
     pose proof Es as Es0. rewrite bf_setup_pre in Es.
@@ -145,7 +146,7 @@ Section Node.
         assert (E2': (s, (@inr pyval exn e, Some (OBuildFile p c fname sa skw [] PNone PNone true true))) = (s1, (r', o'))).
         { destruct Hcore as [Hc|[Hc Hs]]; [rewrite Hc in E2; exact E2|rewrite Hc, Hs in E2; exact E2]. }
         inversion E2'; subst s1 r' o'.
-        apply (Hend T W (inr e) tt); auto; try reflexivity; [|apply rec_rel_refl|apply Wincl_refl].
+        apply (Hend T W (inr e) HS1); [|exact Hf1|reflexivity|reflexivity|apply rec_rel_refl|apply Wincl_refl|rewrite Hn1; exact HWb].
         intro y. unfold inprog. rewrite Hn1. reflexivity. }
     destruct u.
     pose proof (Hpre st tg pend T W w s p wb (inl tt) (conj HP HL) HC Hconds Epre)
@@ -163,8 +164,14 @@ Section Node.
     pose proof (simsetup_qrel _ _ _ _ _ _ HSS Ql) as HSSl.
     pose proof (RInv_X _ _ (RInv2_R' _ _ HR2b)) as HXb.
     destruct (qrel_facts _ _ _ HXb Ql) as (_ & Sl & _ & _).
-    pose proof (Hlook (p :: T) W wb s0 p fname sa skw wl cached (s4_sim _ _ _ _ HPb) HR2b (or_introl eq_refl) Huncb El) as Hdec.
-    rewrite <- core_hit_none_iff in Hdec.
+    assert (Hprogb: forall y, inprog wb y <-> In y st).
+    { intro y. unfold inprog. rewrite Hnb. apply (c4_prog _ _ _ _ HC y). }
+    assert (Hcondsb: tgt_conds st (w_old wb) p) by (rewrite Hob; exact Hconds).
+    assert (HIb: HInv wb).
+    { destruct (bf_pre p w) as [wx rx] eqn:Ex. inversion Epre; subst wx rx. clear Epre.
+      apply (bf_pre_B _ _ _ _ Ex HI). }
+    assert (HKb: old_keys_ok (w_old wb)) by (rewrite Hob; exact HK).
+    pose proof (Hlook st T W wb s0 p fname sa skw wl cached HSS HIb HKb Hprogb Hcondsb El) as Hdec.
     change (core_hit s s0 p fname sa skw) with (core_hit s0 s0 p fname sa skw) in E2.
     apply bind_inv in Et.
     destruct cached as [co|].
@@ -178,13 +185,7 @@ Section Node.
                   (forall y, inprog w2 y <-> inprog wb y) /\
                   (forall y, inprog wb y -> lookup (w_fs w2) y = lookup (w_fs wb) y) /\ w_old w2 = w_old wb).
       { intros w2 r2 Hr.
-        assert (HCb: Ctx4 st tg pend wb).
-        { apply (ctx4_restore st tg pend w wb HC).
-          - intro y. unfold inprog. rewrite Hnb. reflexivity.
-          - exact Hfb.
-          - apply Htmp. }
-        exact (Hhit st tg pend T W wb s0 p c fname sa skw wl co w2 r2 fnode subs' ret' rr HSS HCb
-                    (eq_ind_r (fun o => tgt_conds st o p) Hconds Hob) El Eh Hr). }
+        exact (Hhit st T W wb s0 p c fname sa skw wl co w2 r2 fnode subs' ret' rr HSS HIb HKb Hprogb Hcondsb El Eh Hr). }
       destruct Et as [[wr [reused [Er Et]]]|[e [Er _]]].
       2:{ exfalso. destruct (Hreuse _ _ Er) as (o2 & T' & X & _). discriminate. }
       destruct (Hreuse _ _ Er) as (o2 & T' & X & Hrec & HS2 & Hp2 & Hf2 & Ho2). subst reused.
@@ -193,7 +194,8 @@ Section Node.
       assert (Hret: op_ret o2 = ret').
       { destruct o2 as [q0 r0 e0|p0 c0 f0 a0 k0 sb0 r0 cr0 ra0 sf0|f0 a0 k0 sb0 r0 ra0 sf0]; cbn [rec_rel] in Hrec; try contradiction.
         cbn [op_ret]. apply Hrec. }
-      apply (Hend T' W (inl ret') tt); auto; try reflexivity; [| |rewrite Hret; reflexivity|apply Wincl_refl].
+      apply (Hend T' W (inl ret') HS2); [| |rewrite Hret; reflexivity|reflexivity|exact Hrec|apply Wincl_refl|].
+      3:{ rewrite (Breuse _ _ _ _ _ _ _ _ _ Er), (Blook _ _ _ _ _ _ _ El), (Bpre _ _ _ _ Epre). exact HWb. }
       + intro y. rewrite Hp2. unfold inprog. rewrite Hnb. reflexivity.
       + intros y Hy. rewrite <- (Hfb y Hy). apply Hf2. unfold inprog. rewrite Hnb. apply (proj2 (c4_prog _ _ _ _ HC y) Hy).
     - (* both sides miss: the function runs *)
@@ -215,7 +217,10 @@ Section Node.
       { intro Hin. apply (proj2 (c4_prog _ _ _ _ HC p)) in Hin. unfold inprog in Hin.
         pose proof HSS as (_ & _ & Hu & _). unfold cache_has_file in Hu. rewrite Hnb, Hin in Hu. discriminate. }
       assert (HS0: Sim4 (p :: T) (p :: W) (bf_invoke_world p fname sa skw wt) (CoreLaws3.core_start s0 p fname sa skw)).
-      { split; [exact HS2|]. split; [apply HInv_set_log; exact HIt|]. cbn [bf_invoke_world w_old set_log]. rewrite Holdt. exact HK. }
+      { split; [exact HS2|]. split; [apply HInv_set_log; exact HIt|]. split; [cbn [bf_invoke_world w_old set_log]; rewrite Holdt; exact HK|].
+        cbn [bf_invoke_world w_new set_log]. rewrite (Bclaim _ _ _ _ Et), (Blook _ _ _ _ _ _ _ El), (Bpre _ _ _ _ Epre).
+        intros x Hx. cbn [mem_path] in Hx. rewrite ViewXMkfail.mem_app_path. cbn [mem_path]. rewrite orb_false_r.
+        destruct (path_eqb p x) eqn:Epx; [rewrite orb_true_r; reflexivity|]. cbn [orb] in Hx. rewrite (HWb x Hx). reflexivity. }
       assert (HC0: Ctx4 (p :: st) (Some p) None (bf_invoke_world p fname sa skw wt)).
       { constructor.
         - intro y. change (inprog (bf_invoke_world p fname sa skw wt) y) with (inprog wt y). rewrite Hp2.
@@ -230,18 +235,18 @@ Section Node.
         - intros t Et0. inversion Et0; subst t. split; [exact Hpt|exact Hnot]. }
       destruct (Hbody sa skw (p :: T) (p :: W) _ _ w3 res subs3 s2 res' pend2 bsubs Holdt HS0 HC0 Ef Ec)
         as (T3 & W3 & HS3 & HC3 & Hfr3 & Eres & Hsubs3 & HW3 & Ho3).
-      subst res'. destruct HS3 as [HS3c [HI3 HK3]].
-      destruct r as [|]; destruct (Hfin st T3 W3 w3 s2 p c fname sa skw res subs3 bsubs pend2 w1 _ o s3 out o3 HS3c HI3 HC3
+      subst res'. destruct HS3 as [HS3c [HI3 [HK3 HWb3]]].
+      destruct (Hfin st T3 W3 w3 s2 p c fname sa skw res subs3 bsubs pend2 w1 r o s3 out o3 HS3c HI3 HC3
                        (HW3 p (eq_trans (f_equal (fun b => b || mem_path p W) (path_eqb_refl p)) eq_refl)) Hsubs3 E1 Efin)
-        as (T' & HS' & Eout & Horec & Hp' & Hf' & Ho');
-        (apply (Hend T' W3 out tt); auto; try reflexivity;
-         [intro y; rewrite Hp'; rewrite (c4_prog _ _ _ _ HC3 y), (c4_prog _ _ _ _ HC y); cbn [In];
-          split; [intros [[H|H] Hne]; [exfalso; apply Hne; symmetry; exact H|exact H]|intro H; split; [right; exact H|intro; subst; contradiction]]
-         |intros y Hy; assert (Hne: y <> p) by (intro; subst; contradiction);
-          rewrite (Hf' y Hne), (Hfr3 y (or_intror Hy) (fun X => Hne (eq_sym (f_equal (fun o => match o with Some q => q | None => y end) X))));
-          cbn [bf_invoke_world w_fs set_log]; rewrite (Hf2 y Hne), (sv_fs _ _ Sl); apply Hfb; exact Hy
-         |destruct o as [x|]; [exact Horec|destruct Horec]
-         |intros x Hx; apply HW3; cbn [mem_path]; rewrite Hx; apply orb_true_r]).
+        as (T' & HS' & Eout & Horec & Hp' & Hf' & Ho').
+      apply (Hend T' W3 out HS'); [| |exact Eout|reflexivity| | |rewrite (Bfin _ _ _ _ _ _ _ _ _ _ E1); exact HWb3].
+      + intro y. rewrite Hp'. rewrite (c4_prog _ _ _ _ HC3 y), (c4_prog _ _ _ _ HC y). cbn [In].
+        split; [intros [[H|H] Hne]; [exfalso; apply Hne; symmetry; exact H|exact H]|intro H; split; [right; exact H|intro; subst; contradiction]].
+      + intros y Hy. assert (Hne: y <> p) by (intro; subst; contradiction).
+        rewrite (Hf' y Hne). rewrite (Hfr3 y (or_intror Hy)) by (intro X; inversion X; subst; contradiction).
+        cbn [bf_invoke_world w_fs set_log]. rewrite (Hf2 y Hne), (sv_fs _ _ Sl). apply Hfb. exact Hy.
+      + destruct o as [x|]; [exact Horec|destruct Horec].
+      + intros x Hx. apply HW3. cbn [mem_path]. rewrite Hx. apply orb_true_r.
   Qed.
 End Node.
 
